@@ -4,6 +4,10 @@ from __future__ import annotations
 import itertools
 import threading
 
+import labrea
+import labrea.cache
+import labrea.logging
+
 from hypothesis import strategies as st
 from labrea import Option, dataset, runtime
 from labrea.runtime import Request, Runtime
@@ -364,7 +368,7 @@ def check_lifetimes(case, ctx):
 
     def well_formed(ops):
         return isinstance(ops, list) and all(isinstance(op, list) and op and (
-            (op[0] in ("exit", "touch", "inherit") and len(op) == 1) or (op[0] in ("enter", "run") and len(op) == 2 and isinstance(op[1], int))) for op in ops)
+            (op[0] in ("exit", "touch", "inherit") and len(op) == 1) or (op[0] in ("enter", "run", "run_nocache", "run_nolog") and len(op) == 2 and isinstance(op[1], int))) for op in ops)
     if not (isinstance(case["pool"], list) and case["pool"] and all(isinstance(ov, list) and all(isinstance(p, list) and len(p) == 2 for p in ov) for ov in case["pool"])):
         ctx.done(case, False, ["malformed (reducer artefact)"])
         return
@@ -407,10 +411,17 @@ def check_lifetimes(case, ctx):
                     runtime.inherit(main_thread)
                     model["base"] = dict(current(main_model))
                     model["inherited"] = True
-            elif op[0] == "run":
+            elif op[0] in ("run", "run_nocache", "run_nolog"):
                 ti = op[1] % 2
                 try:
-                    got = types[ti]().run()
+                    if op[0] == "run":
+                        got = types[ti]().run()
+                    else:
+                        # labrea's own context managers derive from the thread's current runtime: the thread's handlers
+                        # still serve its requests inside them
+                        with (labrea.cache.disabled() if op[0] == "run_nocache" else labrea.logging.disabled()):
+                            got = types[ti]().run()
+                        labels.add("inside-" + op[0][4:] + "-disabled-block")
                 except Exception as e:  # noqa
                     got = ("raised", type(e).__name__, str(e)[:60])
                 exp = current(model).get(ti, ("default", ti))
@@ -438,7 +449,7 @@ def check_lifetimes(case, ctx):
     created = []
     try:
         for step_i, step in enumerate(case["main"]):
-            if step[0] in ("enter", "exit", "run", "touch"):
+            if step[0] in ("enter", "exit", "run", "run_nocache", "run_nolog", "touch"):
                 run_ops([step], main_model, entered_main, "main")
             elif step[0] == "spawn":
                 model = {"base": {}, "stack": []}
@@ -507,28 +518,28 @@ def lifetime_cases(draw):
         if draw(st.integers(0, 2)) > 0:
             ops.append(["inherit"])
         for _ in range(draw(st.integers(1, 4))):
-            kind = draw(st.sampled_from(["enter", "exit", "run", "run", "touch"]))
+            kind = draw(st.sampled_from(["enter", "exit", "run", "run", "touch", "run_nocache", "run_nolog"]))
             if kind == "enter":
                 ops.append(["enter", draw(st.integers(0, 2))]); depth += 1
             elif kind == "exit":
                 if depth:
                     ops.append(["exit"]); depth -= 1
-            elif kind == "run":
-                ops.append(["run", draw(st.integers(0, 1))])
+            elif kind.startswith("run"):
+                ops.append([kind, draw(st.integers(0, 1))])
             else:
                 ops.append(["touch"])
         ops.append(["run", draw(st.integers(0, 1))])
         return ops
     main, depth = [], 0
     for _ in range(draw(st.integers(3, 9))):
-        kind = draw(st.sampled_from(["enter", "enter", "exit", "run", "spawn", "spawn", "task", "task"]))
+        kind = draw(st.sampled_from(["enter", "enter", "exit", "run", "run_nocache", "run_nolog", "spawn", "spawn", "task", "task"]))
         if kind == "enter":
             main.append(["enter", draw(st.integers(0, 2))]); depth += 1
         elif kind == "exit":
             if depth:
                 main.append(["exit"]); depth -= 1
-        elif kind == "run":
-            main.append(["run", draw(st.integers(0, 1))])
+        elif kind.startswith("run"):
+            main.append([kind, draw(st.integers(0, 1))])
         elif kind == "spawn":
             main.append(["spawn", worker_ops()])
         else:
